@@ -172,6 +172,13 @@ func (g *GenCfg) Next(r *rand.Rand, m *Machine, p *Proj) Act {
 
 // RandomWorld draws a committed base world that satisfies FeasibleWorld of StateDB.tla.
 func (u *Universe) RandomWorld(r *rand.Rand, maxCode int) World {
+	return u.RandomWorldX(r, maxCode, true)
+}
+
+// RandomWorldX is RandomWorld; with empties=false no empty account is generated (EIP-7523: no
+// empty accounts exist in post-merge states, which EIP-7928 lists rely on: the deletion of a
+// touched empty account is not a balance/nonce/code/storage change).
+func (u *Universe) RandomWorldX(r *rand.Rand, maxCode int, empties bool) World {
 	w := make(World, u.NA)
 	for i := range w {
 		ac := Account{St: make([]int64, u.NS)}
@@ -179,6 +186,9 @@ func (u *Universe) RandomWorld(r *rand.Rand, maxCode int) World {
 		case 0, 1: // absent
 		case 2, 6: // empty account (pre EIP-158 leftover)
 			ac.Ex = true
+			if !empties {
+				ac.Bal = int64(1 + r.Intn(3))
+			}
 		case 3: // funded EOA
 			ac.Ex, ac.Bal = true, int64(1+r.Intn(50))
 			ac.Nonce = int64(r.Intn(3))
